@@ -75,7 +75,10 @@ def load_known(prop):
                 elif t.startswith("sig=") and s is None:
                     s = t[len("sig="):]
             if p == prop and s:
-                known[s] = line[len("finding:"):].strip()
+                desc = line[len("finding:"):].strip()
+                desc = " ".join(t for t in desc.split(" ")
+                                if not t.startswith("property="))
+                known[s] = desc
     return known
 
 
